@@ -27,6 +27,7 @@ type Program struct {
 	pkgByPath  map[string]*packages.Package
 	pkgByName  map[string]*types.Package
 	pkgsByName map[string][]*types.Package
+	Names      NamesFile // recorded parameter/result/local names of the functions under contract (rename tolerance)
 }
 
 // LoadProgram loads the packages of /repo that carry contracts (plus dependencies),
